@@ -157,6 +157,14 @@ def feature_circuits():
     add("constants_with_inputs", ["a"],
         [("t", G.ALWAYS_TRUE, ()), ("f", G.ALWAYS_FALSE, ()), ("o", G.AND, ("a", "t")),
          ("p", G.OR, ("o", "f"))], ["p", "t"])
+    # constants may carry (ignored) operands, and those may be internal gates: the constant is still an ordinary node
+    # of the DAG for every traversal (it comes after its operands, its operands list it among their users)
+    add("constants_with_internal_operands", ["a", "b"],
+        [("g", G.AND, ("a", "b")), ("t", G.ALWAYS_TRUE, ("g", "a")), ("n", G.NOT, ("g",)), ("f", G.ALWAYS_FALSE, ("n",)),
+         ("f2", G.ALWAYS_FALSE, ("n", "t")), ("o", G.OR, ("t", "f", "n"))], ["o", "t", "f2"], ["f2", "t", "o", "f", "n", "g", "a", "b"])
+    add("constants_with_internal_operands_stored_in_order", ["a", "b"],
+        [("g", G.AND, ("a", "b")), ("t", G.ALWAYS_TRUE, ("g", "a")), ("n", G.NOT, ("g",)), ("f", G.ALWAYS_FALSE, ("n",)),
+         ("f2", G.ALWAYS_FALSE, ("n", "t")), ("o", G.OR, ("t", "f", "n"))], ["o", "t", "f2"])
     add("constants_only", [], [("t", G.ALWAYS_TRUE, ()), ("f", G.ALWAYS_FALSE, ()),
                                ("o", G.GT, ("t", "f"))], ["o"])
     add("out_of_topological_storage", ["a", "b"],
